@@ -17,4 +17,4 @@ one() {
   fi
 }
 if [ "${3:-}" = "--one" ]; then one "$4" "$TIER"; exit 0; fi
-ls -d seeded/C*/ seeded/own/*.diff | grep -v void | xargs -P "$JOBS" -I{} "$0" "$TIER" "$JOBS" --one {}
+ls -d seeded/C*/ seeded/own/*.diff | grep -v "void\|uncaught" | xargs -P "$JOBS" -I{} "$0" "$TIER" "$JOBS" --one {}
